@@ -328,7 +328,14 @@ def _block_effects(body, bb):
         elif rv["k"] == "agg" and rv.get("agg") == "tuple":
             eff.append((dst["l"], ("agg", 0, [_opdesc(o) for o in rv["ops"]])))
         elif rv["k"] == "use":
-            eff.append((dst["l"], _opdesc(rv["op"])))
+            c = rv["op"].get("const") if isinstance(rv["op"], dict) else None
+            if c is not None and isinstance(c.get("int"), int) and c.get("ty") == "bool":
+                eff.append((dst["l"], ("agg", c["int"], [])))     # a boolean constant: tracked like a variant
+            else:
+                eff.append((dst["l"], _opdesc(rv["op"])))
+        elif rv["k"] == "un" and rv.get("op") == "Not":
+            o = _opdesc(rv["a"])
+            eff.append((dst["l"], ("not", o[1]) if o is not None and not o[2] else None))
         else:
             eff.append((dst["l"], None))
     t = blk["term"]
@@ -400,7 +407,7 @@ def _relevant_locals(body):
                 srcs = []
                 if v[0] == "place":
                     srcs = [v[1]]
-                elif v[0] in ("branch", "vmap"):
+                elif v[0] in ("branch", "vmap", "not"):
                     srcs = [v[1]]
                 elif v[0] == "agg":
                     srcs = [o[1] for o in v[2] if o is not None]
@@ -446,7 +453,11 @@ def _switch_subject(body, bb):
                 desc = _placedesc(st["rv"]["place"])
                 if desc is not None:
                     return (desc, {v: tg for v, tg in t["arms"]}, t["otherwise"])
-            return None
+                return None
+            break
+    if body.locals[p["l"]]["ty"] == "bool":
+        # `if flag` on a boolean local: decided when the flag's value is known on this path
+        return (("place", p["l"], ()), {v: tg for v, tg in t["arms"]}, t["otherwise"])
     return None
 
 
@@ -521,6 +532,12 @@ def explore(body, start, avoid=(), goals=None, state=None, limit=200000, collect
                         d[l] = (0, (payload,)) if sv[0] == 0 else (1, ((1, (payload,)),))
                     else:
                         d[l] = (0, (payload,)) if sv[0] == 1 else (1, ((0, ()),))
+                else:
+                    d.pop(l, None)
+            elif v[0] == "not":
+                sv = d.get(v[1])
+                if sv is not None and sv[0] in (0, 1):
+                    d[l] = (1 - sv[0], ())
                 else:
                     d.pop(l, None)
             elif v[0] == "vmap":
